@@ -102,11 +102,15 @@ G4d == { [fam |-> "G4", gets |-> TRUE, raw_tags |-> <<1004>>, payload |-> 0, sig
 Hex64 == [i \in 1..64 |-> IF i % 2 = 0 THEN 97 ELSE 48]
 Hex32 == [i \in 1..32 |-> IF i % 2 = 0 THEN 98 ELSE 49]
 Hex64Upper == [i \in 1..64 |-> IF i % 2 = 0 THEN 65 ELSE 70]        \* "FAFA..." : rpm accepts upper-case hex digits
+\* a regular file, a fifo, a character device, a block device, a socket, a directory, a symbolic link, no type at all:
+\* the mode list is returned as stored, whatever the file type
+ModeList == <<33188, 4516, 8612, 24996, 49572, 16877, 41471, 420>>
+ModeOf(i, v) == ModeList[((i + v.ms - 1) % Len(ModeList)) + 1]
 FileTags(nf, v) ==
     << [tag |-> 1117, type |-> 8, v |-> [i \in 1..nf |-> <<102, 48 + i>>]],
        [tag |-> 1118, type |-> 8, v |-> << <<47, 111, 112, 116, 47>> >>],
        [tag |-> 1116, type |-> 4, v |-> [i \in 1..nf |-> <<0, 0>>]] >>
-    \o (IF v.drop = 1030 THEN <<>> ELSE << [tag |-> 1030, type |-> IF v.bad = 1030 THEN 4 ELSE 3, v |-> [i \in 1..nf |-> IF v.bad = 1030 THEN <<0, 33188>> ELSE <<33188>>]] >>)
+    \o (IF v.drop = 1030 THEN <<>> ELSE << [tag |-> 1030, type |-> IF v.bad = 1030 THEN 4 ELSE 3, v |-> [i \in 1..nf |-> IF v.bad = 1030 THEN <<0, 33188>> ELSE <<ModeOf(i, v)>>]] >>)
     \o (IF v.drop = 1039 THEN <<>> ELSE << [tag |-> 1039, type |-> IF v.bad = 1039 THEN 6 ELSE 8, v |-> [i \in 1..(IF v.bad = 1039 THEN 1 ELSE nf) |-> <<117, 48 + i>>]] >>)
     \o (IF v.drop = 1040 THEN <<>> ELSE << [tag |-> 1040, type |-> 8, v |-> [i \in 1..nf |-> <<103>>]] >>)
     \o (IF v.drop = 1035 THEN <<>> ELSE << [tag |-> 1035, type |-> 8, v |-> [i \in 1..nf |-> IF i = 1 THEN v.digest ELSE <<>>]] >>)
@@ -117,9 +121,10 @@ FileTags(nf, v) ==
     \o (IF v.drop = 1036 THEN <<>> ELSE << [tag |-> 1036, type |-> 8, v |-> [i \in 1..nf |-> <<>>]] >>)
     \o (IF v.caps THEN << [tag |-> 5010, type |-> 8, v |-> [i \in 1..nf |-> IF i = 1 THEN <<61, 101>> ELSE <<>>]] >> ELSE <<>>)
     \o (IF v.algo = 0 THEN <<>> ELSE << [tag |-> 5011, type |-> 4, v |-> << <<0, v.algo>> >>] >>)
-FileVariants == { [drop |-> d, bad |-> bd, sizes |-> sz, caps |-> c, algo |-> a, digest |-> dg]
+FileVariants == { [drop |-> d, bad |-> bd, sizes |-> sz, caps |-> c, algo |-> a, digest |-> dg, ms |-> 0]
                     : d \in {0, 1030, 1039, 1040, 1035, 1034, 1037, 1036}, bd \in {0, 1030, 1039, 1034}, sz \in {0, 32, 64},
                       c \in BOOLEAN, a \in {0, 8, 99}, dg \in {Hex64, Hex32, <<>>, Hex64Upper} }
+                \cup { [drop |-> 0, bad |-> 0, sizes |-> 32, caps |-> FALSE, algo |-> 8, digest |-> Hex64, ms |-> m] : m \in 1..7 }
 Relevant(v) == (v.drop = 0 \/ v.bad = 0) /\ (v.bad = 0 \/ (v.sizes = 32 /\ ~v.caps /\ v.algo = 8 /\ v.digest = Hex64))
                /\ (v.drop = 0 \/ (v.sizes = 32 /\ ~v.caps /\ v.algo = 8 /\ v.digest = Hex64))
 ImaSig(k) == IF k = 0 THEN <<>> ELSE << [tag |-> 274, type |-> 8, v |-> [i \in 1..k |-> <<48, 51, 48 + i>>]] >>
@@ -128,7 +133,7 @@ ImaWrong == << [tag |-> 274, type |-> 6, v |-> << <<48, 51>> >>] >>
 G4e == { [fam |-> "G4", gets |-> TRUE, raw_tags |-> <<>>, payload |-> 0, sig |-> [typed |-> ImaSig(IF v.caps THEN nf ELSE 0)],
           hdr |-> [typed |-> FileTags(nf, v)]] : nf \in {1, 2}, v \in {x \in FileVariants : Relevant(x)} }
        \cup { [fam |-> "G4", gets |-> TRUE, raw_tags |-> <<>>, payload |-> 0, sig |-> [typed |-> ImaWrong],
-                hdr |-> [typed |-> FileTags(nf, [drop |-> 0, bad |-> 0, sizes |-> 32, caps |-> FALSE, algo |-> 8, digest |-> Hex64])]] : nf \in {1, 2} }
+                hdr |-> [typed |-> FileTags(nf, [drop |-> 0, bad |-> 0, sizes |-> 32, caps |-> FALSE, algo |-> 8, digest |-> Hex64, ms |-> 0])]] : nf \in {1, 2} }
 
 \* headers with entries appended after the immutable region (rpm's "dribbles"): tags the accessors read,
 \* out of ascending order relative to the region's
